@@ -289,6 +289,8 @@ Proof. vm_compute. repeat split. Qed.
 Example C04_end_to_end_slice_unlocated :
   e2e_guards "a[5:9]" doc1 = false /\
   e2e_gathered "a[5:9]" doc1 = [(Some 2%N, PInt 5)] /\ del_all_located doc1 (e2e_gathered "a[5:9]" doc1) = false.
+Proof. vm_compute. repeat split. Qed.
+
 (* Round `compose`: C04's hypothesis DERIVED for the read-side model (Proofs/EvalSet.v).
    For a path of the C01 fragment (guards of C01_required_sem_partial: the strict reading of the
    specification marks nothing - F12a -, the document is not null; C02's slices_last; no virtual
@@ -330,7 +332,7 @@ Proof. exact delete_required_e2e. Qed.
 Print Assumptions C04_delete_sem_end_to_end.
 
 (* non-vacuity on doc1 = {a: [1, [], 1, x], b: 5}: a.* (the shared int twice), a[-1], ** *)
-Definition e2e_guards (text : string) : bool :=
+Definition ce_e2e_guards (text : string) : bool :=
   match prepare 20 text with
   | Ok (PPath segs) =>
       let p := PPath segs in
@@ -341,7 +343,7 @@ Definition e2e_guards (text : string) : bool :=
   | _ => false
   end.
 Example C04_delete_sem_end_to_end_nonvacuous :
-  e2e_guards "a.*" = true /\ e2e_guards "a[-1]" = true /\ e2e_guards "**" = true /\ e2e_guards "/b" = true /\
+  ce_e2e_guards "a.*" = true /\ ce_e2e_guards "a[-1]" = true /\ ce_e2e_guards "**" = true /\ ce_e2e_guards "/b" = true /\
   del_all_located doc1 (e2e_gathered "a.*" doc1) = true /\
   erase (delete_spec doc1 (e2e_gathered "a[-1]" doc1))
   = DMap [ (PStr "a", DSeq [DLeaf (PInt 1); DSeq []; DLeaf (PInt 1)]); (PStr "b", DLeaf (PInt 5)) ].
